@@ -126,6 +126,15 @@ fn pair_checks<X: PartialEq + Ord + Hash>(
                     if ab != ba.reverse() {
                         viol("cmp-not-antisymmetric", format!("{:?} vs {:?}", ab, ba));
                     }
+                    // the partial order is the total one, and a clone is the same value
+                    match guard(|| a.partial_cmp(b)) {
+                        Ok(p) => {
+                            if p != Some(ab) {
+                                viol("partial_cmp-differs-from-cmp", format!("partial_cmp = {:?}, cmp = {:?}", p, ab));
+                            }
+                        }
+                        Err(e) => viol(&format!("cmp-panic@{}", panic_site(&e)), e),
+                    }
                 }
                 Err(e) => viol(&format!("cmp-panic@{}", panic_site(&e)), e),
             }
